@@ -268,3 +268,109 @@ func poison(c *vkit.Case) {
 	}
 	r.Count("poison", "rounds", 1)
 }
+
+// overdueCancel: the batch is already older than maxWait and nobody has asked for it; then a
+// consumer asks with a context that is already cancelled or expires within microseconds (so it
+// may announce itself and leave before the batch is handed over), possibly several times; then
+// either Close — which must return — or a Next with a live context, which must deliver the items.
+func overdueCancel(c *vkit.Case) {
+	r := c.R
+	rnd := c.Rand
+	maxWait := time.Millisecond
+	k := rnd.Range(1, 3)
+	src := newHandSource()
+	var b stream.Stream[[]int]
+	if rnd.Bool(0.5) {
+		b = stream.Batch[int](src, maxWait, 8)
+	} else {
+		b = stream.BatchFunc[int](src, maxWait, func(x []int) bool { return len(x) >= 8 })
+	}
+	for i := 0; i < k; i++ {
+		src.ch <- i + 1
+	}
+	time.Sleep(3 * maxWait)
+	attempts := rnd.Range(1, 4)
+	gotItems := 0
+	for a := 0; a < attempts && gotItems == 0; a++ {
+		var ctx context.Context
+		var cancel context.CancelFunc
+		if rnd.Bool(0.5) {
+			ctx, cancel = context.WithCancel(context.Background())
+			cancel()
+		} else {
+			ctx, cancel = context.WithTimeout(context.Background(), time.Duration(rnd.Intn(20000))*time.Nanosecond)
+		}
+		batch, err := b.Next(ctx)
+		cancel()
+		if err == nil {
+			gotItems += len(batch)
+		}
+	}
+	r.Eval(1)
+	r.Count("overdue-cancel", "rounds", 1)
+	if gotItems == 0 {
+		r.Count("overdue-cancel", "every impatient consumer left without the batch", 1)
+	}
+	closeNow := rnd.Bool(0.6)
+	if !closeNow && gotItems == 0 {
+		// a patient consumer must still get everything
+		done := make(chan struct{})
+		var batch []int
+		var err error
+		go func() { defer close(done); batch, err = b.Next(context.Background()) }()
+		if v, dump := vkit.Await(done, vkit.AwaitOpts{Soft: 2 * time.Second, Gap: 200 * time.Millisecond, Hard: 60 * time.Second}); v == vkit.AwaitStuck {
+			c.Violation("held-back", fmt.Sprintf("overdue-cancel: %d item(s) had been waiting for 3*maxWait, %d consumer(s) with dead/expiring contexts came and went, then a consumer with a live context was never handed the batch", k, attempts), map[string]any{"goroutines": dump})
+		} else if v == vkit.AwaitDone && (err != nil || len(batch) != k) {
+			c.Violation("overdue-batch", fmt.Sprintf("overdue-cancel: after impatient consumers, Next returned (%v, %v), want the %d pending items", batch, err, k), nil)
+		}
+	}
+	closed := make(chan struct{})
+	go func() { defer close(closed); b.Close() }()
+	if v, dump := vkit.Await(closed, vkit.AwaitOpts{Soft: 2 * time.Second, Gap: 200 * time.Millisecond, Hard: 60 * time.Second}); v == vkit.AwaitStuck {
+		c.Violation("close-stuck", fmt.Sprintf("overdue-cancel: %d item(s) had been waiting for 3*maxWait, %d consumer(s) with dead/expiring contexts came and went (got %d items); Close never returned", k, attempts, gotItems), map[string]any{"goroutines": dump})
+		close(src.ch)
+	} else if v == vkit.AwaitInconclusive {
+		r.Inconclusive("overdue-cancel: Close neither returned nor provably parked")
+	}
+}
+
+// heldBack: "handed to a waiting consumer rather than held back", for the SECOND and later
+// under-filled batches of one stream (timers that are re-armed, not created): the consumer arrives
+// when the batch is already a = 3/4 maxWait old, so the batch is due maxWait/4 after its arrival.
+// Lateness is measured on the wall clock, which load can stretch; so the verdict needs the same
+// shortfall in every one of 5 consecutive rounds (a stall of more than half a maxWait five times
+// in a row on a machine that otherwise delivers the first batch on time), otherwise the round is
+// only counted.
+func heldBack(c *vkit.Case) {
+	r := c.R
+	maxWait := 40 * time.Millisecond
+	src := newHandSource()
+	b := stream.Batch[int](src, maxWait, 4)
+	defer func() { close(src.ch); b.Close() }()
+	late := 0
+	var lates []string
+	rounds := 6
+	for i := 0; i < rounds; i++ {
+		src.ch <- i
+		time.Sleep(maxWait * 3 / 4) // the batch is now ~3/4 maxWait old
+		t0 := time.Now()
+		batch, err := b.Next(context.Background())
+		waited := time.Since(t0)
+		if err != nil || len(batch) != 1 || batch[0] != i {
+			c.Violation("held-back-batch", fmt.Sprintf("held-back: round %d: Next returned (%v, %v), want [%d]", i, batch, err, i), nil)
+			return
+		}
+		due := maxWait / 4
+		if i >= 1 && waited > due+maxWait/2 {
+			late++
+		}
+		lates = append(lates, waited.Round(time.Millisecond).String())
+	}
+	r.Eval(1)
+	r.Count("held-back", "streams", 1)
+	if late == rounds-1 {
+		c.Violation("held-back", fmt.Sprintf("held-back: Batch(maxWait %s): a consumer that arrives when the pending item is 3/4 maxWait old was handed the under-filled batch only after %v (rounds 0..%d; due after about %s), in every round after the first", maxWait, lates, rounds-1, maxWait/4), nil)
+	} else if late > 0 {
+		r.Count("held-back", "rounds delivered later than due + maxWait/2 (load; not judged)", late)
+	}
+}
